@@ -3,7 +3,7 @@ import simgen, oracles
 from props import simprops
 
 HARNESS = ("simh",)
-TRUSTED = ["the idle/park hand-off window of the multi-threaded executor and the folding of per-thread message counters are not modelled (exercised on 2..16 threads only)",
+TRUSTED = ["the idle/park hand-off of the multi-threaded executor and the folding of per-thread message counters: modelled in Pool.v (see C04/C06 theorems there) and exercised on 2..16 threads with and without seeded delays at the protocol points (hooks nexosim::verif); a delayed run is timing-dependent, so a replay of such a case may need several attempts",
            "deadlock benches are deterministic (query loop-backs, self-saturation from one handler); schedule-dependent saturation cycles are not generated"]
 ASSUMPTIONS = ["observer registration order = model ids (hierarchies are laid out in pre-order)"]
 ORACLES = (oracles.o_harness, oracles.o_deadlock_report, oracles.o_exactly_once, oracles.o_terminated)
@@ -17,10 +17,18 @@ def tie(rep, tier, rng, model_ok):
     q = tier == "quick"
     a = simprops.corpus_cases("C06") + [simgen.gen_deadlock(rng) for _ in range(400 if q else 8000)]
     b = [simgen.gen_net(rng, hier=True) for _ in range(150 if q else 4000)]
+    # seeded delays at the executor's protocol points (hooks nexosim::verif, cfg nexosim_verif): the
+    # hand-off between the last workers going inactive and the main thread reading the message count
+    dl = tuple("%dd%dp%du%d" % (t, rng.randrange(1, 10**6), pm, us) for t, pm, us in
+               ((4, 300, 200), (2, 500, 100), (8, 200, 300), (3, 400, 50)))
+    c = [simgen.gen_net(rng, hier=True) for _ in range(200 if q else 3000)]
+    d = [simgen.gen_deadlock(rng) for _ in range(100 if q else 2000)]
     simprops.run(rep, "C06", model_ok,
                  [("deadlocks", a, (1, 4) if q else (1, 2, 4, 8, 16), ORACLES, nontrivial),
-                  ("no-false-report", b, (1, 4), ORACLES, lambda c, o: True)],
-                 "query loop-backs (direct, transitive, inside sub-models with named/unnamed parents), a handler that over-fills its own mailbox, orphan mailboxes (events and queries), capacities 1..3; exact comparison of the verdict (names, counts) with Sim.v + accounting oracle; message-passing benches with hierarchies must never be reported deadlocked/lossy. non-trivial = a Deadlock or MessageLoss verdict occurs")
+                  ("no-false-report", b, (1, 4), ORACLES, lambda c, o: True),
+                  ("no-false-report-delayed", c, dl, ORACLES, lambda c, o: True),
+                  ("deadlocks-delayed", d, dl[:2], ORACLES, nontrivial)],
+                 "query loop-backs (direct, transitive, inside sub-models with named/unnamed parents), a handler that over-fills its own mailbox, orphan mailboxes (events and queries), capacities 1..3; exact comparison of the verdict (names, counts) with Sim.v + accounting oracle; message-passing benches with hierarchies must never be reported deadlocked/lossy, also with seeded delays (yield/sleep up to 300 us with probability 0.2-0.5) at every protocol point of the multi-threaded executor. non-trivial = a Deadlock or MessageLoss verdict occurs")
 
 
 def replay(rep, path, model_ok):
